@@ -27,7 +27,7 @@ type c18Case struct {
 	Pre      []sess.Step `json:"pre,omitempty"`
 }
 
-var c18Printable = []string{"a", "foo", " ", "x y", "\"", "'", "\\", "\\e", "\\C-a", "$(", "1", "-", "Z", "tab", "#"}
+var c18Printable = []string{"a", "foo", " ", "x y", "\"", "'", "\\", "\\e", "\\C-a", "$(", "1", "-", "Z", "tab", "#", "é", "→ 日本", "ł€", "wörld"}
 var c18EmacsKeys = []string{"\x01", "\x05", "\x02", "\x06", "\x04", "\x0b", "\x19", "\x14", "\x17", "\x1bb", "\x1bf", "\x1bd", "\x1bu", "\x1b[D", "\x1b[C", "\x1b[H", "\x1b[F", "\x1b[3~", "\x1b2", "\x1b3", "\x7f"}
 var c18ViCmdKeys = []string{"0", "$", "h", "l", "w", "b", "x", "X", "D", "p", "P", "~", "dw", "db", "2l", "3h", "yw", "rZ", "fo", "\x1b[D", "\x1b[C",
 	"di\"", "da\"", "di'", "di(", "da(", "yi\"", "diw", "daw", "dt ", "df ", "dT ", "d$", "d0", "\"ayw", "\"ap"}
@@ -47,7 +47,8 @@ func escCombines(b byte) bool {
 func c18Gen(r *rand.Rand, tier string, idx int) any {
 	c := c18Case{}
 	c.W, c.H = 80, 24
-	c.Inputrc = "set history-autosuggest off\n"
+	// (convert-meta off: the usual UTF-8 setting, so that non-ASCII text in K is text)
+	c.Inputrc = "set history-autosuggest off\nset convert-meta off\nset input-meta on\nset output-meta on\n"
 	c.Style = pick(r, []string{"emacs", "emacs", "vi"})
 	c.Mode = c.Style
 	c.Start = pick(r, []string{"", "hello world", "one two three four", "a(b)c 'q' end", "say \"hello\" and \"world\" now (x) 'y z' end"})
@@ -318,9 +319,9 @@ func init() {
 		ID:        "C18",
 		Level:     "exploration",
 		NeedsTerm: true,
-		Rule: "differential pairs of sessions: A = start text, then the key script K typed twice; B = start text, start recording, K, stop recording, replay (Emacs: C-x ( K C-x ) C-x e; Vi: q<r> K q @<r> for 10 registers, K starting and ending in command mode, ESC in its own read). K = 1-12 tokens: printable text incl. quotes, backslashes and text that looks like escapes (\\e, \\C-a), control keys, ESC-prefixed keys, CSI arrows/Home/End/Delete, quoted-insert + key, digit arguments, Vi commands with counts and argument keys, operators with text objects and surround characters (di\" da( yi'), named registers; one case in four has AcceptMultiline set and K may contain a Return that is refused (a line ending with a backslash: a newline is inserted and K goes on); one case in six records the macro in one call (accepted with RET) and replays it in the next call of the same Shell (session A types K in both calls); one case in five first makes an empty recording on the same shell and types a few keys; oracle: the final buffer texts of A and B are equal. " +
+		Rule: "differential pairs of sessions: A = start text, then the key script K typed twice; B = start text, start recording, K, stop recording, replay (Emacs: C-x ( K C-x ) C-x e; Vi: q<r> K q @<r> for 10 registers, K starting and ending in command mode, ESC in its own read). K = 1-12 tokens: printable text incl. non-ASCII characters (Latin-1, above U+00FF, CJK), quotes, backslashes and text that looks like escapes (\\e, \\C-a), control keys, ESC-prefixed keys, CSI arrows/Home/End/Delete, quoted-insert + key, digit arguments, Vi commands with counts and argument keys, operators with text objects and surround characters (di\" da( yi'), named registers; one case in four has AcceptMultiline set and K may contain a Return that is refused (a line ending with a backslash: a newline is inserted and K goes on); one case in six records the macro in one call (accepted with RET) and replays it in the next call of the same Shell (session A types K in both calls); one case in five first makes an empty recording on the same shell and types a few keys; oracle: the final buffer texts of A and B are equal. " +
 			"distinct non-trivial = distinct (style, set of key kinds in K, length class) tuples",
-		Assumptions: []string{"macro keys are ASCII (non-ASCII runes in macros are truncated to bytes by the key queue: not exercised)"},
+		Assumptions: []string{"convert-meta off, input-meta and output-meta on (non-ASCII text in K is text)"},
 		N: func(tier string) int {
 			if tier == "thorough" {
 				return 40000
